@@ -134,7 +134,7 @@ class World:
                 # late registration: a handler that registers another decorator handler while the loop is running
                 n = len(st["late_regs"])
                 new_hid = f"late:{hspec['cmd']}#{n}"
-                st["late_regs"].append((st["incarnations"], st["tasks_received"], hspec["cmd"], new_hid))
+                st["late_regs"].append((st["objgen"], st["tasks_received"], hspec["cmd"], new_hid))
                 client.handle(hspec["cmd"])(world.make_handler(k, new_hid, hspec["new"]))
                 world.res.probes["late_registration"] += 1
                 return None
@@ -160,18 +160,26 @@ class World:
                 for f in ("magic", "aes_rand", "ansi_cp", "oem_cp", "bid", "pid", "port", "flag", "ver_major", "ver_minor",
                           "ver_build", "ptr_x64", "ptr_gmh", "ptr_gpa", "ip", "info")}
 
-    def start_client(self, k: int, spec: dict, at_us: int, incarnation: int):
+    def start_client(self, k: int, spec: dict, at_us: int, incarnation: int, reuse_object: bool = False, run_override=None):
         st = self.clients.setdefault(k, {"produced": [], "sent_counters": [], "dispatch": [], "tasks_received": 0,
                                          "received": [], "sleeps": [], "incarnations": 0, "crashes": [], "ids": [],
                                          "keys": [], "band": None, "obj": None, "outgoing": None, "actor": None,
                                          "metadata_snapshot": None, "run_error": None, "rejected": None, "alive_from": None,
-                                         "late_regs": []})
+                                         "late_regs": [], "objgen": 0})
         st["incarnations"] += 1
         st["metadata_snapshot"] = None
-        # a new client object starts from the static registrations: late registrations are tagged with the incarnation
-        client = self.make_client(k, spec)
+        if reuse_object and st["obj"] is not None:
+            # the operator runs the SAME client object again (same beacon id, possibly other host details): whatever the
+            # object registered or cached during its first life is still there, and must not leak into what it sends now
+            client = st["obj"]
+            self.res.probes["client_object_rerun"] += 1
+        else:
+            # a new client object starts from the static registrations: late registrations are tagged with the object generation
+            client = self.make_client(k, spec)
+            st["objgen"] += 1
         st["obj"] = client
         run = dict(spec["run"])
+        run.update(run_override or {})
         st["band"] = None
 
         def target():
@@ -218,7 +226,7 @@ class World:
         st["tasks_received"] += 1
         got = (int(task.epoch), int(task.command), bytes(task.data))
         st["received"].append(got)
-        st.setdefault("received_inc", []).append(st["incarnations"])
+        st.setdefault("received_inc", []).append(st["objgen"])
         self.res.log.log("task", k, got[1], got[2])
         if lr is None or lr.get("task") is None:
             prop = "C05" if lr and lr.get("corrupted") else "C07"
@@ -473,6 +481,17 @@ class World:
                 d = hashlib.sha256(c.aes_rand).digest()
                 if (c.aes_key, c.hmac_key) != (d[:16], d[16:]):
                     self.violate("C19", "client_key_split", "client aes/hmac keys are not the halves of SHA-256(aes_rand)")
+            # requesting the id the client actually presents (the normalised one) must give the same session keys
+            try:
+                c = HttpBeaconClient()
+                c.logger = _NullLogger()
+                c.run(self.bconfig, dry_run=True, beacon_id=st["ids"][0])
+                if c.beacon_id == st["ids"][0] and bytes(c.aes_rand) not in seen:
+                    self.violate("C19", "session_keys_depend_on_requested_id",
+                                 f"requested id {req} is presented as {st['ids'][0]}, but requesting {st['ids'][0]} directly gives "
+                                 f"other session keys")
+            except Exception as e:  # noqa: BLE001
+                self.violate("C19", "dry_run_raised", type(e).__name__, f"dry run with beacon_id={st['ids'][0]} raised {e!r}")
             # the same client OBJECT run again with another id must use that id's keys everywhere
             c = HttpBeaconClient()
             c.logger = _NullLogger()
@@ -541,7 +560,8 @@ class World:
             spec = next(s for s in self.plan["clients"] if s["k"] == kk)
             self.res.log.log("restart", kk, was_alive)
             st["dispatch_epoch"] = st.get("dispatch_epoch", 0) + 1
-            self.start_client(kk, spec, self.kernel.now + op.get("delay_us", 1000), st["incarnations"] + 1)
+            self.start_client(kk, spec, self.kernel.now + op.get("delay_us", 1000), st["incarnations"] + 1,
+                              reuse_object=bool(op.get("reuse_object")), run_override=op.get("run_override"))
 
     def _raw_post(self, op):
         """Raw beacon: a POST carrying SEVERAL framed callbacks (what real beacons do, the library client never does),
@@ -700,7 +720,7 @@ class World:
                 by_task.setdefault(tno, []).append(hid)
             for i, (epoch, cmd, data) in enumerate(st["received"], start=1):
                 want = list(specific.get(cmd, []))
-                # late registrations made while handling an EARLIER task of this incarnation apply
+                # late registrations made while handling an EARLIER task by the same client OBJECT apply
                 inc_i = st["received_inc"][i - 1]
                 want += [hid for (inc, tno, c_, hid) in st["late_regs"] if c_ == cmd and inc == inc_i and tno < i]
                 nm = names.get(cmd)
